@@ -393,9 +393,14 @@ func (s *serverSocket) onClose(reason Reason) {
 		s.join = func(room ...Room) {}
 		s.joinMu.Unlock()
 		wg.WaitTimeout(10 * time.Second)
-		s.leaveAll()
 
-		s.nsp.remove(s)
+		// The session was persisted above, before the wait for the `disconnecting` handlers: the client may have
+		// come back and recovered it in the meantime. Then there is a new socket with the ID of this one,
+		// and the rooms and the entry in the namespace that go by this ID are the new socket's.
+		if current, ok := s.nsp.sockets.get(s.ID()); !ok || current == s {
+			s.leaveAll()
+			s.nsp.remove(s)
+		}
 		s.conn.remove(s)
 
 		s.connectedMu.Lock()
